@@ -27,6 +27,12 @@ func dslValidationFiles(f string) bool {
 }
 
 func init() {
+	reg("C01", rulePlan, ruleRecordOrder, ruleDirectionDuality, ruleCppPrimitiveFamilies, ruleStepFraming, ruleEmptyBatchGuard, ruleEndStream)
+	reg("C16", ruleEndStream, ruleStepFraming)
+	reg("C17", ruleEmptyBatchGuard, ruleStepFraming)
+	reg("C15", ruleStateMachineSchemaCheck)
+	reg("C03", ruleEmittedSymbols, rulePlan)
+	reg("C08", ruleEmittedSymbols)
 	reg("C19", ruleCommonTypeMap, ruleEmitterSiblings, ruleParenthesisation, ruleOperatorTokens, rulePromotionNotBypassed)
 	reg("C07", ruleStateMachine)
 	reg("C02", ruleJsonKinds, ruleUnionTagDecision, ruleKindTests, ruleOptionalFieldSymmetry)
